@@ -411,7 +411,12 @@ func (g *fastGenerator) fieldItem(field *protogen.Field, fieldname string, messa
 			g.P(`}`)
 
 			g.P("var mapkey ", goTypK)
-			g.P("var mapvalue ", goTypV)
+			if field.Message.Fields[1].Desc.Kind() == protoreflect.MessageKind {
+				// an entry without a value field holds an empty message, not a nil one
+				g.P("mapvalue := &", g.noStarOrSliceType(field.Message.Fields[1]), "{}")
+			} else {
+				g.P("var mapvalue ", goTypV)
+			}
 			g.P(`for iNdEx < postIndex {`)
 
 			g.P(`entryPreIndex := iNdEx`)
